@@ -142,6 +142,45 @@ Example C06_matcher_examples :
   match_string Any [10]%N = false /\ match_string (Cat (Chr 97) Bol) [97; 97]%N = false.
 Proof. vm_compute. repeat split; reflexivity. Qed.
 
+(* concurrent senders.  Every sender (goroutine) sends its own stream; the bus as a whole
+   produces an interleaving L of the per-sender delivery sequences [run (wire cfg) stream_j]
+   ([is_interleaving]: (sender, delivery) pairs whose projection on each sender is that
+   sender's sequence - any schedule of subscriber calls).  Then, for every channel: *)
+From Coq Require Import Permutation.
+
+(* ... the deliveries of one sender arrive in that sender's sending order and are exactly
+   what the channel receives from that stream alone (cross-sender order is unspecified) *)
+Theorem C06_concurrent_sender_order : forall cfg streams L c j,
+  is_interleaving (map (run (wire cfg)) streams) L ->
+  (j < length streams)%nat ->
+  on_chan c (proj j L) = received cfg (nth j streams []) c.
+Proof. exact interleaving_sender_order. Qed.
+
+(* ... and as a multiset the channel gets every event of every sender exactly copies-many
+   times, with the token: nothing is lost or duplicated by overlapping Sends *)
+Theorem C06_concurrent_multiset : forall cfg streams L c,
+  is_interleaving (map (run (wire cfg)) streams) L ->
+  Permutation (on_chan c (map snd L))
+              (flat_map (fun e => repeat (ev_id e, FStr (c_token cfg)) (copies cfg c e)) (concat streams)).
+Proof. exact interleaving_multiset. Qed.
+
+(* non-vacuity: an interleaving of two senders' deliveries that is not a concatenation *)
+Example C06_concurrent_nonvacuous :
+  let s1 := [mkEv 100 (FStr ex_ssh) FMissing FMissing; mkEv 101 (FStr ex_ssh) FMissing FMissing] in
+  let s2 := [mkEv 200 FMissing FMissing FMissing] in
+  let d e := (ex_c1, (ev_id e, FStr ex_tok)) in
+  let L := [(0%nat, d (mkEv 100 FMissing FMissing FMissing)); (1%nat, d (mkEv 200 FMissing FMissing FMissing));
+            (0%nat, (ex_c2, (100%N, FStr ex_tok))); (0%nat, (ex_c2, (100%N, FStr ex_tok)));
+            (0%nat, d (mkEv 101 FMissing FMissing FMissing));
+            (0%nat, (ex_c2, (101%N, FStr ex_tok))); (0%nat, (ex_c2, (101%N, FStr ex_tok)))] in
+  is_interleaving (map (run (wire ex_cfg)) [s1; s2]) L.
+Proof.
+  cbv zeta. split.
+  - repeat constructor.
+  - intros j Hj. cbn [length map] in Hj.
+    destruct j as [|[|j]]; [vm_compute; reflexivity | vm_compute; reflexivity | lia].
+Qed.
+
 Print Assumptions C06_route_exact.
 Print Assumptions C06_once_per_admitting_filter.
 Print Assumptions C06_order_preserved.
@@ -160,3 +199,5 @@ Print Assumptions C06_fields_untouched.
 Print Assumptions C06_matcher_spec.
 Print Assumptions C06_match_string_unanchored.
 Print Assumptions C06_empty_expression_matches_all.
+Print Assumptions C06_concurrent_sender_order.
+Print Assumptions C06_concurrent_multiset.
